@@ -1,7 +1,6 @@
 package bkl
 
 import (
-	"errors"
 	"fmt"
 	"os"
 	"path/filepath"
@@ -43,7 +42,11 @@ func ext(path string) string {
 func findFile(path string) string {
 	for ext := range formatByExtension {
 		extPath := fmt.Sprintf("%s.%s", path, ext)
-		if _, err := os.Stat(extPath); errors.Is(err, os.ErrNotExist) {
+		// Any error means that this candidate is not there: besides "not
+		// found", a name that only becomes too long with this extension must
+		// not be mistaken for the layer (which made the result depend on the
+		// order in which extensions are probed).
+		if _, err := os.Stat(extPath); err != nil {
 			continue
 		}
 
